@@ -2,6 +2,7 @@ package main
 
 import (
 	"math/rand"
+	"strings"
 	"time"
 )
 
@@ -77,6 +78,15 @@ func timeBytes(variant string, rng *rand.Rand) []byte {
 	return b
 }
 
+// oddContent: the fields that are written hold ill-sized / ill-formed content;
+// oddField restricts that to one field ("" = all; "SignEmpty" = an empty Sign).
+var oddContent bool
+var oddField string
+
+func isOdd(name string) bool {
+	return oddContent && (oddField == "" || oddField == name || (oddField == "SignEmpty" && name == "Sign"))
+}
+
 func encFields(fields []wfield, present []int, tvariant string, rng *rand.Rand, nested func(num int) [][]byte) []byte {
 	var b []byte
 	for _, f := range fields {
@@ -101,6 +111,24 @@ func encFields(fields []wfield, present []int, tvariant string, rng *rand.Rand, 
 			}
 			if f.name == "Data" || f.name == "Target" || f.name == "Time" || f.name == "ChainId" || f.name == "SocketRequestId" || f.name == "Extends" {
 				v = []byte("s" + f.name)
+			}
+			if isOdd(f.name) {
+				switch {
+				case f.name == "Sign" && oddField == "SignEmpty":
+					v = []byte{}
+				case f.name == "Sign":
+					v = []byte{0xde, 0xad, 0xbe, 0xef}
+				case f.name == "SubTransactions" || f.name == "RequestIds":
+					v = []byte(`{not json`)
+				case f.name == "ProveValue":
+					v = []byte{}
+				case strings.HasSuffix(f.name, "Hash") || strings.HasSuffix(f.name, "Tree") || f.name == "MemberRoot":
+					if rng.Intn(2) == 0 {
+						v = v[:5]
+					} else {
+						v = append(v, v[:8]...)
+					}
+				}
 			}
 			b = putB(b, f.num, v)
 		case 't':
